@@ -41,7 +41,7 @@ def nmt_check_table(ctx):
     rows = {}
     own = 5
     for ident in (0, 1, 0x700):
-        for tgt in (own, 0, 9):
+        for tgt in (own, 0, 9, 4, 127, 255):
             for cs in range(256):
                 trs = pe.run({'frm->Identifier': ident, 'frm->Data[0]': cs, 'frm->Data[1]': tgt,
                               'nmt->Node->NodeId': own})
@@ -80,7 +80,7 @@ def nmt_check_table(ctx):
                              % (site, sorted(got, key=str), exp_acts))
                 if exp_acts or (ident == 0 and cs in spec.NMT_CMD):
                     rows[site] = str(sorted(got, key=str))
-    ctx.inst('RF1.nmt-cmd.rows', 3 * 3 * 256)
+    ctx.inst('RF1.nmt-cmd.rows', 3 * 6 * 256)
     ctx.table('C09', 'CONmtCheck (commands that act)', rows)
 
 
@@ -102,7 +102,7 @@ def dispatch_cascade(ctx):
     for mode in MODES:
         allowed = mt[mode]
         reacted = set()
-        for lss in (-1, 0, 1):
+        for lss in ((-1, 0, 1) if getattr(m, 'has_lss', True) else (0,)):
             for rd in (0, 1):
                 trs = pe.run({'call:COIfCanRead': rd, 'node->Nmt.Allowed': allowed, 'call:COLssCheck': lss})
                 for t in trs:
@@ -277,7 +277,7 @@ def producer_gates(ctx):
     mt = mode_table(m)
     sites = m.call_sites('COIfCanSend')
     ctx.inst('RF2.send-sites', len(sites))
-    ctx.require_min(P, 'RF2-send-gate', len(sites), 14, 'COIfCanSend call sites')
+    ctx.require_min(P, 'RF2-send-gate', len(sites), 14 if getattr(m, 'has_csdo', True) else 8, 'COIfCanSend call sites')
     for (fname, call) in sorted(sites, key=lambda s: (s[0], s[1].line)):
         site = '%s: %s' % (m.loc(fname, call), fname)
         kind = SEND_SITES.get(fname)
